@@ -392,3 +392,95 @@ def c08_tables(out):
             else:
                 out.violation("name-table|DeriveItemKind::from_str(%s)" % (nm + suffix), "-", "DeriveItemKind::from_str(\"%s\") = %s, expected %s(%s)" % (nm + suffix, got, kind, nm))
     return obl
+
+
+def entry_args_provenance(out, pid, n=2):
+    """DeriveEntry::from_args_list: every entry takes its per-trait bound from its own `(..)` arguments (an empty Bounds when it has none) and its shared bound from
+    the list it was written in - nothing is carried over from a neighbouring entry or list. Presence of per-trait arguments is symbolic."""
+    eng = engine()
+    obl = e3.Obligations(pid)
+    ex = eng.executor(slice_bound=n, opaque_local={"DeriveItemKind::from_ident", "Bounds::from", "From::Bounds::from", "Bounds::new"})
+    fn = eng.find("DeriveEntry::from_args_list")
+    res = ex.run(fn, eng.args_for(fn))
+    tag = "DeriveEntry::from_args_list[<=%d lists x <=%d traits]" % (n, n)
+    obl.note_paths(tag, res, ex)
+    names = eng.ti.structs.get("DeriveEntry")
+    # `Bounds::from(&None)` is the empty Bounds as well - decided on the MIR of Bounds::from / Bounds::new, not assumed
+    none_is_empty = False
+    try:
+        ex0 = eng.executor()
+        f_from, f_new = eng.find("Bounds::from"), eng.find("Bounds::new")
+        r_from = ex0.run(f_from, [mx.Agg("adt", "Option", "None", [])])
+        r_new = eng.executor().run(f_new, [])
+        obl.note_paths("Bounds::from(None)", r_from, ex0)
+        none_is_empty = len(r_from) == 1 and len(r_new) == 1 and r_from[0].kind == r_new[0].kind == "return" and \
+            ex0.summ(mx.State(), r_from[0].value) == ex0.summ(mx.State(), r_new[0].value)
+    except Exception:  # noqa
+        pass
+    for r in res:
+        if r.kind == "stuck":
+            out.inconclusive.append("fn=%s reason=%s" % (tag, r.value))
+            continue
+        if r.kind != "return" or is_err(r) or not isinstance(r.value.fields[0], mx.VecL):
+            continue
+        conj, what = [], []
+        for ent in r.value.fields[0].items:
+            if not (isinstance(ent, mx.Agg) and names and len(names) == len(ent.fields)):
+                out.inconclusive.append("fn=%s reason=DeriveEntry not recognised" % tag)
+                continue
+            f = {k: ex.summ(mx.State(), v) if not z3.is_expr(v) else str(v) for k, v in zip(names, ent.fields)}
+            m = re.search(r"args_list\.\[(\d+)\]\.items\.\[(\d+)\]\.trait_ident", f.get("kind", ""))
+            if not m or "bounds_this" not in f or "bounds_common" not in f:
+                out.inconclusive.append("fn=%s reason=entry without provenance" % tag)
+                continue
+            i, j = int(m.group(1)), int(m.group(2))
+            is_some = ex.ivar("disc(args_list.[%d].items.[%d].args)" % (i, j), 0, 1) == 0
+            own = re.fullmatch(r"opaque:Bounds::from\(sym:args_list\.\[%d\]\.items\.\[%d\]\.args\.<Some>\.\w+\.bound\)" % (i, j), f["bounds_this"]) is not None
+            empty = f["bounds_this"] == "opaque:Bounds::new()" or (none_is_empty and f["bounds_this"] == "opaque:Bounds::from(agg:Option::None())")
+            conj.append(is_some if own else (z3.Not(is_some) if empty else z3.BoolVal(False)))
+            conj.append(z3.BoolVal(f["bounds_common"] == "opaque:Bounds::from(sym:args_list.[%d].bound)" % i))
+            what.append((i, j, f["bounds_this"][7:], f["bounds_common"][7:]))
+        obl.check_unsat(ex, tag + ":args-provenance", list(r.pc) + [z3.Not(z3.And(conj))] if conj else list(r.pc) + [z3.BoolVal(False)], info=(what, ex, n), keep_smt=True)
+    from . import replay_e3
+    seen = set()
+    for label, model, info in obl.failed:
+        what, ex2, n2 = info
+        tv = lambda e: z3.is_true(model.eval(e, model_completion=True))
+        # concrete lists: a marker bound on every entry that has arguments and on every list; each impl must carry exactly its own markers
+        traits = ["Clone", "Default", "Debug", "PartialEq", "Hash", "Add", "Sub", "Neg", "Not"]
+        nl = model.eval(ex2.ivar("len(args_list)", 0, n2), model_completion=True).as_long()
+        lists, expect, t = [], {}, 0
+        for i in range(min(nl, n2)):
+            li = model.eval(ex2.ivar("len(args_list.[%d].items)" % i, 0, n2), model_completion=True).as_long()
+            ents = []
+            for j in range(min(li, n2)):
+                name = traits[t]
+                t += 1
+                some = tv(ex2.ivar("disc(args_list.[%d].items.[%d].args)" % (i, j), 0, 1) == 0)
+                ents.append("%s(bound(T: M%d%d, ..))" % (name, i, j) if some else name)
+                expect[name] = sorted((["T:M%d%d" % (i, j)] if some else []) + ["T:L%d" % i])
+            lists.append(", ".join(ents + ["bound(T: L%d, ..)" % i]))
+        if not expect or tuple(lists) in seen:
+            continue
+        seen.add(tuple(lists))
+        item = "%s struct X<T> { a: T }" % " ".join("#[derive_ex(%s)]" % l for l in lists[1:])
+        res1 = common.expand_many([("attr", lists[0], item)])[0]
+        bad = None
+        for it in res1.get("items", []):
+            if it.get("kind") != "impl":
+                continue
+            tn = re.sub(r"<.*$", "", common.norm(it.get("trait", ""))).rsplit("::", 1)[-1]
+            if tn in expect:
+                got = sorted(w for w in (common.norm(x) for x in it.get("where", [])) if re.fullmatch(r"T:[ML]\d+", w))
+                if got != expect[tn]:
+                    bad = (tn, got, expect[tn])
+                    break
+        if bad:
+            case = {"property": pid, "kind": "where_markers_of", "mode": "attr", "attr": lists[0], "item": item, "trait": bad[0], "expected_markers": bad[2],
+                    "explain": "each entry's where-clause carries the markers of its own arguments and of its own list only; MIR path: %s" % (what,)}
+            path = e3.write_replay(pid, "args-%s" % re.sub(r"\W+", "_", " | ".join(lists))[:60], case)
+            out.violation("args-provenance|%s" % common.norm(" | ".join(lists))[:80], path,
+                          "impl %s carries the bounds %s, its own arguments and list say %s: #[derive_ex(%s)] %s" % (bad[0], bad[1], bad[2], lists[0], item))
+        else:
+            out.broken.append("UNCONFIRMED counterexample for %s: #[derive_ex(%s)] %s" % (label, lists[0], item))
+    return obl
